@@ -1,17 +1,18 @@
 (* Correspondence support for the C17 front-end stream: what the clients of the real
    server (cmd/arrai serve: gRPC Update/Observe, websocket) saw on a sequential front-end
    history, compared with the engine model (Sys/Engine.v, quirks off) run on the engine
-   history the front-end history maps to (gen/c17fe.py fe_map: one watcher per valid
+   history the front-end history maps to (Sys/FrontEnd.v fe_map, computed here; gen/c17fe.py's own fe_map is only cross-checked: one watcher per valid
    subscription, re-subscribe = Cancel old + Observe new, client hang-up / disconnect = no
    engine event: the watcher lingers until its next delivery fails, which no other client
    can observe - C17_isolation).  A client sees values only (and, over gRPC, the error that
    ends the stream); a connection's log is the concatenation of its watchers' values. *)
 From Coq Require Import List ZArith Bool Lia.
-From Arrai Require Import Sys.Engine Proofs.EngineP Check.C17Check.
+From Arrai Require Import Sys.Engine Sys.FrontEnd Proofs.EngineP Check.C17Check.
 Import ListNotations.
 Open Scope Z_scope.
 
 Record feconn := {
+  f_key : Z;             (* the connection: 2c for websocket connection c, 2g+1 for gRPC Observe call g *)
   f_ids : list Z;        (* the connection's watchers, oldest first *)
   f_mode : Z;            (* 0 = live to the end: exact; 1 = the client left: prefix of the last watcher's values;
                             2 = the server closed the socket after a re-subscribe: at most the initial value of the last watcher *)
@@ -19,7 +20,10 @@ Record feconn := {
   f_ended : Z }.         (* gRPC: 1 = the stream ended with an error, 0 = still open; -1 = not observable (websocket, client left) *)
 
 Record fecase := {
-  fc_id : Z; fc_h : list cevent; fc_acks : list ack; fc_status : status; fc_conns : list feconn }.
+  fc_id : Z;
+  fc_fe : list (fe_op cval cexpr);   (* the FRONT-END history: the model runs on the Gallina fe_map of it *)
+  fc_h : list cevent;                (* gen/c17fe.py's own mapping, cross-checked against fe_map (code 3) *)
+  fc_acks : list ack; fc_status : status; fc_conns : list feconn }.
 
 Definition vals_of (tr : list cmsg) : list cval :=
   flat_map (fun m => match m with MUpdate v => [v] | MClose _ => [] end) tr.
@@ -43,10 +47,29 @@ Definition conn_ok (st : cstate) (c : feconn) : bool :=
   && (if f_ended c =? (-1) then true
       else Bool.eqb (f_ended c =? 1) (existsb (fun i => failed_of (trace_of i st)) (f_ids c))).
 
-(* 0 = the clients saw what the model says; 1 = loop state or answers differ; 2 = some connection's log differs *)
+Definition cexpr_eqb (a b : cexpr) : bool :=
+  match a, b with
+  | CConst x, CConst y | CAdd x, CAdd y | CMulAdd x, CMulAdd y | CFailGt x, CFailGt y | CPanicGt x, CPanicGt y => x =? y
+  | CRoot, CRoot | CFail, CFail | CPanic, CPanic => true
+  | _, _ => false
+  end.
+Definition ev_shape_eqb (a b : cevent) : bool :=
+  match a, b with
+  | Update x, Update y => cexpr_eqb x y
+  | Observe i x _, Observe j y _ => (i =? j) && cexpr_eqb x y
+  | Cancel i, Cancel j => i =? j
+  | Hangup, Hangup | Stop, Stop => true
+  | _, _ => false
+  end.
+
+(* 0 = the clients saw what the model says; 1 = loop state or answers differ; 2 = some connection's log differs;
+   3 = the python mapping (engine history, a connection's watcher ids) is not the Gallina fe_map / fe_ids of the front-end history *)
 Definition fe_classify (k : fecase) : Z :=
-  let st := crun quirks17_off (fc_h k) in
-  if negb (status_eqb (fc_status k) (s_status _ _ st) && list_eqb ack_eqb (fc_acks k) (s_acks _ _ st)) then 1
+  let h := fe_map cval cexpr (fc_fe k) in
+  let st := crun quirks17_off h in
+  if negb (list_eqb ev_shape_eqb h (fc_h k)
+           && forallb (fun c => list_eqb Z.eqb (f_ids c) (fe_ids cval cexpr (f_key c) (fc_fe k))) (fc_conns k)) then 3
+  else if negb (status_eqb (fc_status k) (s_status _ _ st) && list_eqb ack_eqb (fc_acks k) (s_acks _ _ st)) then 1
   else if forallb (conn_ok st) (fc_conns k) then 0 else 2.
 
 Definition fe_report (l : list fecase) : list (Z * Z) :=
@@ -55,12 +78,17 @@ Definition fe_report (l : list fecase) : list (Z * Z) :=
 (* update 5; ws c1 observes $ (#1); gRPC observes $+1 (#2); update $*10+3; c1 re-subscribes $+2 (#3): the server closes c1 *)
 Example fe_classify_small :
   fe_classify {| fc_id := 0;
+                 fc_fe := [FeUpdate (Some (CConst 5)); FeSubscribe 2 (Some CRoot) (cb_of None); FeSubscribe 3 (Some (CAdd 1)) (cb_of None);
+                           FeUpdate (Some (CMulAdd 3)); FeSubscribe 2 None (cb_of None); FeSubscribe 2 (Some (CAdd 2)) (cb_of None); FeUpdate (Some (CConst 7))];
                  fc_h := [Update (CConst 5); Observe 1 CRoot (cb_of None); Observe 2 (CAdd 1) (cb_of None);
                           Update (CMulAdd 3); Cancel 1; Observe 3 (CAdd 2) (cb_of None); Update (CConst 7)];
                  fc_acks := [AUpd true; ADone; ADone; AUpd true; ADone; ADone; AUpd true]; fc_status := Running;
-                 fc_conns := [ {| f_ids := [1; 3]; f_mode := 2; f_vals := [Some 5; Some 53; Some 55]; f_ended := -1 |};
-                               {| f_ids := [2]; f_mode := 0; f_vals := [Some 6; Some 54; Some 8]; f_ended := 0 |} ] |} = 0
-  /\ fe_classify {| fc_id := 1; fc_h := [Update (CConst 5); Observe 1 CRoot (cb_of None); Update (CConst 6)];
+                 fc_conns := [ {| f_key := 2; f_ids := [1; 3]; f_mode := 2; f_vals := [Some 5; Some 53; Some 55]; f_ended := -1 |};
+                               {| f_key := 3; f_ids := [2]; f_mode := 0; f_vals := [Some 6; Some 54; Some 8]; f_ended := 0 |} ] |} = 0
+  /\ fe_classify {| fc_id := 1; fc_fe := [FeUpdate (Some (CConst 5)); FeSubscribe 2 (Some CRoot) (cb_of None); FeHangup 4; FeUpdate (Some (CConst 6))];
+                    fc_h := [Update (CConst 5); Observe 1 CRoot (cb_of None); Update (CConst 6)];
                     fc_acks := [AUpd true; ADone; AUpd true]; fc_status := Running;
-                    fc_conns := [ {| f_ids := [1]; f_mode := 0; f_vals := [Some 5]; f_ended := -1 |} ] |} = 2.
-Proof. split; vm_compute; reflexivity. Qed.
+                    fc_conns := [ {| f_key := 2; f_ids := [1]; f_mode := 0; f_vals := [Some 5]; f_ended := -1 |} ] |} = 2
+  /\ fe_classify {| fc_id := 2; fc_fe := [FeSubscribe 2 (Some CRoot) (cb_of None)]; fc_h := [Observe 2 CRoot (cb_of None)];
+                    fc_acks := [ADone]; fc_status := Running; fc_conns := [] |} = 3.
+Proof. repeat split; vm_compute; reflexivity. Qed.
